@@ -305,6 +305,8 @@ pub open spec fn frame_ok(d: Disk, base: Disk, p: PathId) -> bool {
 
 //@@ CliArgs
 
+//@@include c39_write/lemmas.rs
+
 //@@HELPERS
 
 //@@ main::write_one
